@@ -22,6 +22,7 @@ type poolUniverse struct {
 	Items []AEv `json:"items"`
 	L0    int   `json:"l0"`
 	Cons  []int `json:"cons"`
+	Raw   []int `json:"raw"` // items consensus hands over with its own stamp (see twins)
 }
 
 // readUniverse finds the line MC_EvidencePool prints at start-up (the items behind the indices of the histories).
@@ -54,6 +55,7 @@ type poolObs struct {
 	C []int `json:"c"`
 	G []int `json:"g"`
 	Q []int `json:"q"`
+	W []int `json:"w"` // pending in the raw form (the stamp consensus gave)
 }
 type poolLine struct {
 	H [][]json.RawMessage `json:"h"`
@@ -67,7 +69,14 @@ type realPool struct {
 	db   *memorydb.Database
 	p    *evpool.Pool
 	evs  []*types.DuplicateVoteEvidence // real evidence per item (index = item - 1)
-	ids  map[string]int                 // evidence hash -> item
+	ids  map[string]int                 // evidence hash -> item (also the hash of the item's twin)
+	// twins[k-1] != nil for the raw items: the same two votes as consensus/state.go tryAddVote may hand them over -
+	// the time is not the block time (median of the observer's own last commit) and the total is that of another set
+	twins []*types.DuplicateVoteEvidence
+}
+
+func (rp *realPool) isPending(k int) bool {
+	return rp.p.VerifIsPending(rp.evs[k-1]) || (rp.twins[k-1] != nil && rp.p.VerifIsPending(rp.twins[k-1]))
 }
 
 func (rp *realPool) list(l []int) types.EvidenceList {
@@ -108,14 +117,20 @@ func (rp *realPool) step(op string, arg json.RawMessage) (class string, ec strin
 		var k int
 		json.Unmarshal(arg, &k)
 		ev := rp.evs[k-1]
-		wasP, wasC := rp.p.VerifIsPending(ev), rp.p.VerifIsCommitted(ev)
-		err := rp.p.AddEvidenceFromConsensus(ev)
+		wasP, wasC := rp.isPending(k), rp.p.VerifIsCommitted(ev)
+		var err error
+		if tw := rp.twins[k-1]; tw != nil {
+			c := *tw // consensus builds a new object every time
+			err = rp.p.AddEvidenceFromConsensus(&c)
+		} else {
+			err = rp.p.AddEvidenceFromConsensus(ev)
+		}
 		switch {
 		case err != nil:
 			return "error", errClass(err), nil
 		case wasP:
 			return "dup", "nil", nil
-		case rp.p.VerifIsPending(ev):
+		case rp.isPending(k):
 			return "added", "nil", nil
 		case wasC:
 			return "committed", "nil", nil
@@ -166,14 +181,28 @@ type problem struct{ sig, text string }
 // observe projects the real pool onto the specification's observation and checks PendingEvidence: without limit
 // it must return the proposable items `want` (ordered by height); under every byte limit (the exact size of each
 // prefix and one byte less) exactly the prefix that fits.
-func (rp *realPool) observe(want []int) (pend, comm, gossip []int, size int, problems []problem) {
-	pm, cm, gm := map[int]bool{}, map[int]bool{}, map[int]bool{}
+func (rp *realPool) observe(want []int) (pend, comm, gossip, raw []int, size int, problems []problem) {
+	pm, cm, gm, wm := map[int]bool{}, map[int]bool{}, map[int]bool{}, map[int]bool{}
+	npend := 0
 	for i, ev := range rp.evs {
 		if rp.p.VerifIsPending(ev) {
 			pm[i+1] = true
+			npend++
 		}
 		if rp.p.VerifIsCommitted(ev) {
 			cm[i+1] = true
+		}
+		if tw := rp.twins[i]; tw != nil {
+			if rp.p.VerifIsPending(tw) {
+				if pm[i+1] {
+					problems = append(problems, problem{"raw-and-restated", fmt.Sprintf("item %d is pending twice: as consensus stamped it and with the facts of its height", i+1)})
+				}
+				pm[i+1], wm[i+1] = true, true
+				npend++
+			}
+			if rp.p.VerifIsCommitted(tw) {
+				problems = append(problems, problem{"raw-committed", fmt.Sprintf("item %d is marked committed in the form consensus stamped it", i+1)})
+			}
 		}
 	}
 	for e := rp.p.EvidenceFront(); e != nil; e = e.Next() {
@@ -206,15 +235,15 @@ func (rp *realPool) observe(want []int) (pend, comm, gossip []int, size int, pro
 	if len(all) > 0 && total != cum[len(cum)-1] {
 		problems = append(problems, problem{"size-reported", fmt.Sprintf("PendingEvidence(-1) reports %d bytes, the list encodes to %d", total, cum[len(cum)-1])})
 	}
-	wm := map[int]bool{}
+	qm := map[int]bool{}
 	for _, id := range want {
-		wm[id] = true
+		qm[id] = true
 		if !seen[id] {
 			problems = append(problems, problem{"misses-proposable", fmt.Sprintf("item %d is pending, verifiable and unexpired but PendingEvidence(-1) does not return it (Size() = %d)", id, size)})
 		}
 	}
 	for id := range seen {
-		if wm[id] || id == 0 {
+		if qm[id] || id == 0 {
 			continue
 		}
 		ev := rp.evs[id-1]
@@ -245,7 +274,10 @@ func (rp *realPool) observe(want []int) (pend, comm, gossip []int, size int, pro
 			}
 		}
 	}
-	return sortedInts(pm), sortedInts(cm), sortedInts(gm), size, problems
+	if size != npend {
+		problems = append(problems, problem{"size", fmt.Sprintf("Size() = %d with %d pending entries", size, npend)})
+	}
+	return sortedInts(pm), sortedInts(cm), sortedInts(gm), sortedInts(wm), size, problems
 }
 
 func eqInts(a, b []int) bool {
@@ -315,6 +347,14 @@ func TestPoolReplay(t *testing.T) {
 		res.Mismatch("infra:item", "two items of the universe have the same hash", nil)
 		return
 	}
+	twins := make([]*types.DuplicateVoteEvidence, len(evs))
+	for _, k := range u.Raw {
+		tw := *evs[k-1]
+		tw.Timestamp = tw.Timestamp.Add(1)
+		tw.TotalVotingPower++
+		twins[k-1] = &tw
+		ids[tw.Hash().Hex()] = k
+	}
 	n, err := mbt.EachLine(path, 0, mbt.EnvInt("EV_LIMIT", 0), mbt.EnvInt("EV_STRIDE", 1), mbt.Seed(), func(k int, raw []byte) {
 		if strings.HasPrefix(string(raw), `{"items"`) {
 			return
@@ -325,7 +365,7 @@ func TestPoolReplay(t *testing.T) {
 			return
 		}
 		view := &chainView{f: f, cur: uint64(u.L0), maxAgeBlocks: mb, maxAgeDur: md}
-		rp := &realPool{f: f, view: view, evs: evs, ids: ids}
+		rp := &realPool{f: f, view: view, evs: evs, ids: ids, twins: twins}
 		rp.p, rp.db, err = f.newPool(view, nil)
 		if err != nil {
 			res.Mismatch("infra:newpool", err.Error(), nil)
@@ -362,8 +402,8 @@ func TestPoolReplay(t *testing.T) {
 		if lastOp != "recv" || len(ln.H) > 1 {
 			res.Distinct(histString(ln.H))
 		}
-		pend, comm, gossip, size, problems := rp.observe(ln.O.Q)
-		detail["real_obs"] = map[string]interface{}{"h": view.cur, "p": pend, "c": comm, "g": gossip, "size": size}
+		pend, comm, gossip, rawIDs, size, problems := rp.observe(ln.O.Q)
+		detail["real_obs"] = map[string]interface{}{"h": view.cur, "p": pend, "c": comm, "g": gossip, "w": rawIDs, "size": size}
 		detail["spec_obs"] = ln.O
 		if int(view.cur) != ln.O.H {
 			res.Mismatch("infra:height", "driver height differs from the specification's", detail)
@@ -377,8 +417,9 @@ func TestPoolReplay(t *testing.T) {
 		if !eqInts(gossip, ln.O.G) {
 			res.Mismatch("evidence:state:gossip-list:after-"+lastOp, fmt.Sprintf("gossip list %v, the specification says %v; history %s", gossip, ln.O.G, histString(ln.H)), detail)
 		}
-		if size != len(pend) {
-			res.Mismatch("evidence:state:size:after-"+lastOp, fmt.Sprintf("Size() = %d with %d pending items %v; history %s", size, len(pend), pend, histString(ln.H)), detail)
+		if !eqInts(rawIDs, ln.O.W) {
+			res.Mismatch("evidence:state:raw:after-"+lastOp, fmt.Sprintf("evidence pending as consensus stamped it (time / total not those of the evidence height: every other node refuses it) %v, the specification says %v (stated with the facts of its height as soon as the block of that height exists); history %s",
+				rawIDs, ln.O.W, histString(ln.H)), detail)
 		}
 		for _, p := range problems {
 			res.Mismatch("evidence:pending-evidence:"+p.sig, p.text+"; history "+histString(ln.H), detail)
